@@ -135,64 +135,7 @@ func runC14(e *Engine, r *Report) {
 			r.check(okv && hasPanic, "MPT-reader-close", "validatePayload compares the computed sum with PayloadChecksum and fail-stops", e.pos(vp.Pos()), "mismatch is fatal", "validatePayload no longer compares with the recorded payload checksum or no longer fail-stops")
 		}
 	}
-	// ---- writer Close order
-	if wc := r.need("(*internal/rsm.SnapshotWriter).Close"); wc != nil {
-		steps := []func(s ssa.CallInstruction) bool{
-			func(s ssa.CallInstruction) bool { return e.CallsTo(s, e.Func("(*internal/rsm.SnapshotWriter).flush")) },
-			func(s ssa.CallInstruction) bool {
-				return e.CallsTo(s, e.Func("(*internal/rsm.SnapshotWriter).saveHeader"))
-			},
-			func(s ssa.CallInstruction) bool { return s.Common().IsInvoke() && s.Common().Method.Name() == "Sync" },
-			func(s ssa.CallInstruction) bool { return s.Common().IsInvoke() && s.Common().Method.Name() == "Close" },
-			func(s ssa.CallInstruction) bool { return e.CallsTo(s, e.Func("internal/fileutil.SyncDir")) },
-		}
-		names := []string{"flush", "saveHeader", "file.Sync", "file.Close", "SyncDir"}
-		var at []ssa.Instruction
-		for i, st := range steps {
-			var found ssa.Instruction
-			forEachCall(wc, func(s ssa.CallInstruction) {
-				if found == nil && st(s) {
-					found = s.(ssa.Instruction)
-				}
-			})
-			r.check(found != nil, "MPT-writer-close", "SnapshotWriter.Close performs "+names[i], e.pos(wc.Pos()), "present", "SnapshotWriter.Close no longer performs "+names[i])
-			at = append(at, found)
-		}
-		for i := 1; i < len(at); i++ {
-			if at[i] == nil || at[i-1] == nil {
-				continue
-			}
-			prev := at[i-1]
-			o, _ := e.alwaysPrecededBy(at[i], func(in ssa.Instruction) bool { return in == prev }, 0)
-			r.check(o, "MPT-writer-close", names[i]+" after "+names[i-1]+" in SnapshotWriter.Close", e.ipos(at[i]),
-				"payload flushed, header written, file synced and closed, directory synced - in this order", "the close sequence of the snapshot file writer is out of order")
-		}
-		// every step on every path
-		for i, a := range at {
-			if a == nil {
-				continue
-			}
-			x := a
-			res := e.findPath(wc, nil, isReturn, func(in ssa.Instruction) bool { return in == x }, nil)
-			r.check(!res.Found, "MPT-writer-close", names[i]+" on every path of SnapshotWriter.Close", e.ipos(a), "unconditional", names[i]+" can be skipped on some path of SnapshotWriter.Close")
-		}
-		closed := e.Field("internal/rsm", "SnapshotWriter", "closed")
-		for _, gn := range []string{"GetPayloadSize", "GetPayloadChecksum"} {
-			g := r.need("(*internal/rsm.SnapshotWriter)." + gn)
-			if g == nil {
-				continue
-			}
-			okg := true
-			forEachInstr(g, func(in ssa.Instruction) {
-				if _, ok := in.(*ssa.Return); ok {
-					if gg, _ := e.guardedOnAllPaths(in, reqBool("", fieldV(closed), true)); !gg {
-						okg = false
-					}
-				}
-			})
-			r.check(okg, "MPT-writer-close", gn+" only after Close", e.pos(g.Pos()), "size and checksum are final", gn+" can be read before the writer was closed")
-		}
-	}
+	ruleSnapshotWriterClose(e, r)
 	// ---- streamed chunk payloads are fresh buffers
 	chunkData := e.Field("raftpb", "Chunk", "Data")
 	if onb := r.need("(*internal/rsm.ChunkWriter).onNewBlock"); onb != nil && chunkData != nil {
@@ -276,7 +219,9 @@ func runC14(e *Engine, r *Report) {
 			}
 			// same function wraps with the compressor chosen from the same source
 			okw := false
-			src := func(v ssa.Value) bool { return sameSizeExpr(stripConv(v), stripConv(ct)) || (ctField != nil && fieldV(ctField)(v) && fieldV(ctField)(ct)) }
+			src := func(v ssa.Value) bool {
+				return sameSizeExpr(stripConv(v), stripConv(ct)) || (ctField != nil && fieldV(ctField)(v) && fieldV(ctField)(ct))
+			}
 			for _, cs := range e.SitesIn(s.Parent(), newComp) {
 				if e.dependsOn(cs.Common().Args[0], src, 1) {
 					okw = true
